@@ -35,7 +35,7 @@ def variantDescs : List (Nat × Desc) :=
   inputVariants.map (fun r => (reprDisc r.2.1, payloadDesc r.2.2.1 r.2.2.2))
 
 /-- `InputRepr::from(self).encode_static` then the payload: the encoder of `Input` is the encoder of
-this enum descriptor (its discriminants repeat, so it is not `wf` and is never *decoded* generically) -/
+this enum descriptor (its discriminants repeat (it is `wf` but not `nodup`), so it is never *decoded* generically) -/
 def encDesc : Desc := Desc.enumOf variantDescs
 
 def coinFull : Desc := payloadDesc "Coin" "Full"
